@@ -148,6 +148,10 @@ def agree(impl, model, req=None):
     instrumented parser model predicts (C03_parser_store_refines is about exactly that sequence of calls)"""
     if not _agree_content(impl, model, req):
         return False
+    if model.startswith("ps rc=") and " sto=" in model:
+        # the composition parser model -> store model, executed by the driver on this input (Model/ParserStoreOps.lean)
+        if model.split(" sto=", 1)[1].split(" ", 1)[0] not in ("ok", "skip"):
+            return False
     oi, om = ops_of(impl), ops_of(model)
     if oi is None or om is None:
         return oi is None and om is None or not impl.startswith("ps rc=")
